@@ -1,2 +1,6 @@
 import BufrProps.C01
-#print axioms Bufr.C01.C01_compressible_needs_two
+#print axioms Bufr.C01.C01_static_roundtrip
+#print axioms Bufr.C01.C01_structure
+#print axioms Bufr.C01.C01_layout_rederived
+#print axioms Bufr.C01.C01_element
+#print axioms Bufr.C01.C01_raw_bits
